@@ -248,3 +248,16 @@ m("c14-buffer-sized-from-stream-length", "C14", 1, [("src/gm2_slha_io.cpp",
    "   std::string content(static_cast<std::size_t>(size), '\\0');\n   istr.read(&content[0], size);\n   std::istringstream stream(content);\n   data.read(stream);\n}"),
   ("src/gm2_slha_io.cpp", "#include <fstream>", "#include <fstream>\n#include <sstream>")],
   "stream length taken with seekg/tellg: fine for string streams (the unit tests) and for a regular file on stdin, but a pipe cannot seek: tellg() = -1, std::string(size_t(-1)) throws std::length_error out of main()")
+
+# ----------------------------------------------------------------------------- C19 specificity: representation vs. observable state
+m("c19-atomic-evaluation-counter-inside-the-model", "C19", 0, [("include/gm2calc/MSSMNoFV_onshell.hpp",
+   "#include <cmath>\n#include <iosfwd>\n",
+   "#include <atomic>\n#include <cmath>\n#include <iosfwd>\n"),
+  ("include/gm2calc/MSSMNoFV_onshell.hpp",
+   "class MSSMNoFV_onshell : public MSSMNoFV_onshell_mass_eigenstates {\npublic:\n   MSSMNoFV_onshell();\n",
+   "/// statistics: number of 1-loop evaluations of a model (relaxed atomic, copies carry the value)\nstruct Evaluation_counter {\n   mutable std::atomic<unsigned long> n{0};\n   Evaluation_counter() = default;\n   Evaluation_counter(const Evaluation_counter& o) : n(o.n.load(std::memory_order_relaxed)) {}\n   Evaluation_counter& operator=(const Evaluation_counter& o) { n.store(o.n.load(std::memory_order_relaxed), std::memory_order_relaxed); return *this; }\n};\n\n"
+   "class MSSMNoFV_onshell : public MSSMNoFV_onshell_mass_eigenstates {\npublic:\n   Evaluation_counter evaluation_counter;\n   MSSMNoFV_onshell();\n"),
+  ("src/MSSMNoFV/gm2_1loop.cpp",
+   "double calculate_amu_1loop(const MSSMNoFV_onshell& model)\n{\n   return amu1LChi0(model) + amu1LChipm(model);\n}",
+   "double calculate_amu_1loop(const MSSMNoFV_onshell& model)\n{\n   model.evaluation_counter.n.fetch_add(1, std::memory_order_relaxed);\n   return amu1LChi0(model) + amu1LChipm(model);\n}")],
+  "an atomic statistics counter INSIDE the model object, incremented by a const evaluation: the object's byte image changes, but no getter, printed text or result does, and it is thread-safe: property holds")
